@@ -66,7 +66,11 @@ void harness_case(Dec &d, Case &c) {
         else if (sc.dev == D_EXTEND_RESPONSE) { Tlv e = extRespPayload(ver, rid, true, 0, "", out.hasCal ? &out.cal : nullptr, false, 0); pdu = ver == 1 ? sealV1(0x300, h, e, key, macAlg) : sealV2(0x321, h, {e}, key, macAlg); }
         else { Tlv p = aggrRespPayload(ver, rid, hasStatus || status, status, status ? "failure" : "", out.chains.empty() ? nullptr : &out, sc.level); if (out.chains.empty()) p = aggrRespPayload(ver, rid, true, 0, "", nullptr, 0);
             if (sc.dev == D_NO_REQUEST_ID) { for (size_t i = 0; i < p.kids.size(); i++) if (p.kids[i].tag == 0x01) { p.kids.erase(p.kids.begin() + (long)i); break; } } // otherwise honest, but bound to no request
-            pdu = ver == 1 ? sealV1(0x200, h, p, key, macAlg, withHeader, withMac) : sealV2(0x221, h, {p}, key, macAlg, withHeader, withMac); }
+            pdu = ver == 1 ? sealV1(0x200, h, p, key, macAlg, withHeader, withMac) : sealV2(0x221, h, {p}, key, macAlg, withHeader, withMac);
+            if (sc.dev == D_NO_MAC && d.pick(3) != 0) { // a forger without the key: the client's own header, request element and MAC echoed back around a (different) response
+            Tlv rq; std::vector<Tlv> rk; if (ref::decodeOne(req, rq) && ref::decodeList(rq.payload.data(), rq.payload.size(), rk) && rk.size() >= 3) {
+                Tlv e(ver == 1 ? 0x200 : 0x221); e.nested = true; bool respFirst = d.flag(); e.kids.push_back(rk[0]); if (respFirst) e.kids.push_back(p); for (size_t i = 1; i + 1 < rk.size(); i++) e.kids.push_back(rk[i]); if (!respFirst) e.kids.push_back(p); e.kids.push_back(rk.back());
+                pdu = e.enc(); c.cls("reply:request-echoed-around-unauthenticated-response"); } } }
         if (sc.dev == D_BAD_MAC && pdu.size() > 4) { pdu[pdu.size() - 1 - d.pick(8)] ^= (uint8_t)(1u << d.pick(8)); }
         if (sc.dev == D_GARBAGE) { pdu.clear(); unsigned n = 2 + d.pick(40); for (unsigned i = 0; i < n; i++) pdu.push_back(d.byte()); }
         if (sc.dev == D_TRAILING) { pdu.push_back(0x01); pdu.push_back(0x00); }
@@ -80,8 +84,14 @@ void harness_case(Dec &d, Case &c) {
     if (sc.transport == 0 && d.pick(3) == 0) { sim::net().recvChunk = [&](sim::Conn &, size_t, size_t want) -> size_t { size_t k = 1 + d.pick(64); return k < want ? k : want; }; sim::net().sendChunk = [&](sim::Conn &, size_t len) -> long { size_t k = 1 + d.pick(40); return (long)(k < len ? k : len); }; }
 
     // ---- the client ---------------------------------------------------------------------------------------------------
-    Ctx ctx; std::string uri = sc.transport == 0 ? "ksi+tcp://agg.example.test:3333" : "ksi+http://agg.example.test:8080/gt-signingservice"; std::string keyStr(sc.key.begin(), sc.key.end());
-    KSI_CTX_setAggregator(ctx, uri.c_str(), sc.login.c_str(), keyStr.c_str()); KSI_CTX_setOption(ctx, KSI_OPT_AGGR_PDU_VER, (void *)(size_t)sc.version); KSI_CTX_setOption(ctx, KSI_OPT_AGGR_HMAC_ALGORITHM, (void *)(size_t)sc.macAlg);
+    // a quarter of the cases hand the credentials over inside the service URI (user:key@host, no explicit arguments); the key is then drawn from
+    // the characters a URI's user-information part may carry, ':' included (everything after the FIRST colon is the key)
+    bool credInUri = d.pick(4) == 0;
+    if (credInUri) { static const char set[] = "abcXYZ019-_.~:;=+$,!*'()&"; for (auto &b : sc.key) b = (uint8_t)set[b % (sizeof set - 1)]; if (d.flag()) sc.key[d.pick((uint32_t)sc.key.size())] = ':'; bool colon = false; for (auto b : sc.key) if (b == ':') colon = true; c.cls(colon ? "credentials-in-uri:key-with-colon" : "credentials-in-uri"); }
+    Ctx ctx; std::string keyStr(sc.key.begin(), sc.key.end()); std::string cred = credInUri ? sc.login + ":" + keyStr + "@" : std::string();
+    std::string uri = sc.transport == 0 ? "ksi+tcp://" + cred + "agg.example.test:3333" : "ksi+http://" + cred + "agg.example.test:8080/gt-signingservice";
+    const char *argLogin = credInUri ? nullptr : sc.login.c_str(), *argKey = credInUri ? nullptr : keyStr.c_str();
+    KSI_CTX_setAggregator(ctx, uri.c_str(), argLogin, argKey); KSI_CTX_setOption(ctx, KSI_OPT_AGGR_PDU_VER, (void *)(size_t)sc.version); KSI_CTX_setOption(ctx, KSI_OPT_AGGR_HMAC_ALGORITHM, (void *)(size_t)sc.macAlg);
     KSI_DataHash *dh = nullptr; if (KSI_DataHash_fromImprint(ctx, sc.doc.data(), sc.doc.size(), &dh) != KSI_OK) { c.skip("document imprint refused"); return; }
     KSI_Signature *sig = nullptr; int res = KSI_UNKNOWN_ERROR; bool asyncErr = false; int asyncState = -1;
     if (sc.api == A_SIGN_AGGREGATED) res = KSI_Signature_signAggregated(ctx, dh, sc.level, &sig);
@@ -91,7 +101,7 @@ void harness_case(Dec &d, Case &c) {
         KSI_BlockSigner *bs = nullptr; KSI_BlockSignerHandle *bh = nullptr; res = KSI_BlockSigner_new(ctx, KSI_HASHALG_SHA2_256, nullptr, nullptr, &bs); if (res == KSI_OK) res = KSI_BlockSigner_addLeaf(bs, dh, (int)sc.level, nullptr, &bh);
         if (res == KSI_OK) res = KSI_BlockSigner_closeAndSign(bs); if (res == KSI_OK) res = KSI_BlockSignerHandle_getSignature(bh, &sig); KSI_BlockSignerHandle_free(bh); KSI_BlockSigner_free(bs); }
     else { // asynchronous service: one request, run until it is handed back (bounded number of rounds; the clock advances)
-        KSI_AsyncService *as = nullptr; KSI_SigningAsyncService_new(ctx, &as); res = KSI_AsyncService_setEndpoint(as, uri.c_str(), sc.login.c_str(), keyStr.c_str());
+        KSI_AsyncService *as = nullptr; KSI_SigningAsyncService_new(ctx, &as); res = KSI_AsyncService_setEndpoint(as, uri.c_str(), argLogin, argKey);
         KSI_AggregationReq *rq = nullptr; KSI_AggregationReq_new(ctx, &rq); KSI_AggregationReq_setRequestHash(rq, KSI_DataHash_ref(dh)); if (sc.level) { KSI_Integer *li = nullptr; KSI_Integer_new(ctx, sc.level, &li); KSI_AggregationReq_setRequestLevel(rq, li); }
         KSI_AsyncHandle *hnd = nullptr; if (res == KSI_OK) res = KSI_AsyncAggregationHandle_new(ctx, rq, &hnd); else KSI_AggregationReq_free(rq);
         if (res == KSI_OK) { res = KSI_AsyncService_addRequest(as, hnd); if (res != KSI_OK) KSI_AsyncHandle_free(hnd); }
